@@ -31,7 +31,7 @@ func init() {
 		Technique: "counter lockstep: per-path symbolic execution over an affine domain (go/ssa, feasible-path enumeration with phi/nilness pruning, linear facts from guards and io contracts, Gaussian elimination for equality modulo facts), modular callee summaries derived from the callees themselves (fill leaves b.r == 0), who-may-write census of the cursor and counter fields; guard/dominance rules on direct reads, feasible-path evaluation of UnreadByte in the post-direct-read state, slide-copy shape; dominating-guard + no-intervening-cursor-write rule on every consumption of the pending read error",
 		Meta: core.Meta{
 			Level:       "other",
-			Explanation: "Decides, for every method of bfe_bufio.Reader and Writer and every return of it: on every feasible path to that return (each loop body taken at most twice) the bytes consumed — bytes obtained from the underlying reader (b.rd.Read / WriterTo.WriteTo results) plus the advance of b.r minus the growth of b.w — equal the change of TotalRead, resp. the bytes accepted — bytes handed to the underlying writer (b.wr.Write / ReaderFrom.ReadFrom results) plus the growth of b.n — equal the change of TotalWrite, as affine expressions over SSA values modulo the linear facts of the path. Calls to other methods of the same object use a summary derived from the callee (fields havocked; `fill` provably leaves b.r == 0; the callee's own balance is its own obligation). Also: Reader.reset / Writer.Reset zero cursor and counter together; the cursor and counter fields are written only inside bfe_bufio. Data path (three necessary conditions only): a Read that hands the caller's slice straight to b.rd happens only under b.r == b.w, records lastByte = p[n-1] and invalidates lastRuneSize; in the state such a read leaves behind (b.r == b.w, lastByte >= 0; branch conditions on the entry values of r, w, lastByte are evaluated in it) every path of UnreadByte to a nil return stores byte(lastByte) into the buffer cell the read cursor ends at; every slide of the reader's buffer (w -= r, r = 0) is preceded by an uncapped copy of buf[r:w] to buf[0:]; the pending error of the underlying reader (b.err) is delivered after the buffered bytes: every place of a Reader method that consumes it (a call of readErr, recognised as the method that clears b.err and returns what it held) or clears it (b.err = nil, as WriteTo does for io.EOF) is dominated by a branch edge that establishes b.r == b.w / !(b.r < b.w) / b.w - b.r <= 0 / b.Buffered() == 0 evaluated at that branch, or by `b.r = b.w`, with no write of b.r/b.w (directly or through another Reader method) on any path from there to the place — so a loop that drains the stream cannot stop on the error while bytes read together with it are still buffered; discharged otherwise only for a zero-length request (len(p) == 0) and, as a reviewed exception, for Peek (the bytes stay buffered). Not covered: equivalence of the delivered bytes with std bufio beyond these conditions (ReadSlice/ReadLine/Peek/ReadRune data, Writer data path), loops taken more than twice, the saturating decrements of UnreadByte/UnreadRune when TotalRead was externally reset below the unread amount (those branches are assumed away), overflow.",
+			Explanation: "Decides, for every method of bfe_bufio.Reader and Writer and every return of it: on every feasible path to that return (each loop body taken at most twice) the bytes consumed — bytes obtained from the underlying reader (b.rd.Read / WriterTo.WriteTo results) plus the advance of b.r minus the growth of b.w — equal the change of TotalRead, resp. the bytes accepted — bytes handed to the underlying writer (b.wr.Write / ReaderFrom.ReadFrom results) plus the growth of b.n — equal the change of TotalWrite, as affine expressions over SSA values modulo the linear facts of the path. A private helper (unexported method, never used as a value, only called as a plain call on the caller's own receiver from methods of the same type, loop-free, at most 8 paths) that is not balanced on its own — a fragment such as `take one byte back from the counter` — carries no obligation; it is executed inline, path by path, on every path of its callers (all combinations, at most 256 per caller path, otherwise undecided). Calls to other methods of the same object use a summary derived from the callee (fields havocked; `fill` provably leaves b.r == 0; the callee's own balance is its own obligation). Also: Reader.reset / Writer.Reset zero cursor and counter together; the cursor and counter fields are written only inside bfe_bufio. Data path (three necessary conditions only): a Read that hands the caller's slice straight to b.rd happens only under b.r == b.w (established in the method or at the single call site of the private helper that does the read), records lastByte = p[n-1] and invalidates lastRuneSize; in the state such a read leaves behind (b.r == b.w, lastByte >= 0; branch conditions on the entry values of r, w, lastByte are evaluated in it) every path of UnreadByte to a nil return stores byte(lastByte) into the buffer cell the read cursor ends at; every slide of the reader's buffer (w -= r, r = 0) is preceded by an uncapped copy of buf[r:w] to buf[0:]; the pending error of the underlying reader (b.err) is delivered after the buffered bytes: every place of a Reader method that consumes it (a call of readErr, recognised as the method that clears b.err and returns what it held) or clears it (b.err = nil, as WriteTo does for io.EOF) is dominated by a branch edge that establishes b.r == b.w / !(b.r < b.w) / b.w - b.r <= 0 / b.Buffered() == 0 evaluated at that branch, or by `b.r = b.w`, with no write of b.r/b.w (directly or through another Reader method) on any path from there to the place — so a loop that drains the stream cannot stop on the error while bytes read together with it are still buffered; discharged otherwise only for a zero-length request (len(p) == 0) and, as a reviewed exception, for Peek (the bytes stay buffered). Not covered: equivalence of the delivered bytes with std bufio beyond these conditions (ReadSlice/ReadLine/Peek/ReadRune data, Writer data path), loops taken more than twice, the saturating decrements of UnreadByte/UnreadRune when TotalRead was externally reset below the unread amount (those branches are assumed away), overflow.",
 			RuleText:    "obligations = each return of each method of Reader/Writer (all feasible paths to it balanced), path-enumeration completeness per method, reset rules, one census obligation per cursor/counter field, each direct read of the underlying reader, each nil return of UnreadByte, each slide, each consumption/clearing of Reader.err",
 			Assumptions: []string{
 				"io.Reader.Read / io.Writer.Write / copy return 0 <= n <= len(argument); WriteTo/ReadFrom return n >= 0",
@@ -75,6 +75,9 @@ func init() {
 			{Name: "helper-consumes-error-called-with-data-buffered", File: "bfe_bufio/bufio.go", Old: "func (b *Reader) ReadByte() (c byte, err error) {\n	b.lastRuneSize = -1\n	for b.w == b.r {\n		if b.err != nil {\n			return 0, b.readErr()\n		}", New: "func (b *Reader) pending() error {\n	return b.readErr()\n}\n\nfunc (b *Reader) ReadByte() (c byte, err error) {\n	b.lastRuneSize = -1\n	if b.err != nil {\n		return 0, b.pending()\n	}\n	for b.w == b.r {\n		if b.err != nil {\n			return 0, b.pending()\n		}", Expect: "err-after-data|Reader.pending:consume#1"},
 			{Name: "silent-unreadbyte-restore-reordered", File: "bfe_bufio/bufio.go", Old: "		b.w = 1\n		b.r = 0\n		b.buf[0] = byte(b.lastByte)\n		b.lastByte = -1\n", New: "		last := byte(b.lastByte)\n		b.r = 0\n		b.w = 1\n		b.buf[b.r] = last\n		b.lastByte = -1\n", Silent: true},
 			{Name: "silent-readslice-counter-first", File: "bfe_bufio/bufio.go", Old: "			b.r = n + i + 1\n\n			b.TotalRead += n + i + 1\n", New: "			consumed := n + i + 1\n			b.TotalRead += consumed\n			b.r = consumed\n", Silent: true},
+			{Name: "silent-uncount-helper", File: "bfe_bufio/bufio.go", Old: "		b.buf[0] = byte(b.lastByte)\n		b.lastByte = -1\n\n		if b.TotalRead > 0 {\n			b.TotalRead -= 1\n		}\n\n		return nil\n	}\n	if b.r <= 0 {\n		return ErrInvalidUnreadByte\n	}\n	b.r--\n	b.lastByte = -1\n\n	if b.TotalRead > 0 {\n		b.TotalRead -= 1\n	}\n\n	return nil\n}\n", New: "		b.buf[0] = byte(b.lastByte)\n		b.lastByte = -1\n\n		b.giveBackOne()\n\n		return nil\n	}\n	if b.r <= 0 {\n		return ErrInvalidUnreadByte\n	}\n	b.r--\n	b.lastByte = -1\n\n	b.giveBackOne()\n\n	return nil\n}\n\nfunc (b *Reader) giveBackOne() {\n	if b.TotalRead > 0 {\n		b.TotalRead--\n	}\n}\n", Silent: true},
+			{Name: "uncount-helper-called-twice", File: "bfe_bufio/bufio.go", Old: "		b.buf[0] = byte(b.lastByte)\n		b.lastByte = -1\n\n		if b.TotalRead > 0 {\n			b.TotalRead -= 1\n		}\n\n		return nil\n	}\n	if b.r <= 0 {\n		return ErrInvalidUnreadByte\n	}\n	b.r--\n	b.lastByte = -1\n\n	if b.TotalRead > 0 {\n		b.TotalRead -= 1\n	}\n\n	return nil\n}\n", New: "		b.buf[0] = byte(b.lastByte)\n		b.lastByte = -1\n\n		b.giveBackOne()\n\n		return nil\n	}\n	if b.r <= 0 {\n		return ErrInvalidUnreadByte\n	}\n	b.r--\n	b.lastByte = -1\n\n	b.giveBackOne()\n	b.giveBackOne()\n\n	return nil\n}\n\nfunc (b *Reader) giveBackOne() {\n	if b.TotalRead > 0 {\n		b.TotalRead--\n	}\n}\n", Expect: "lockstep|Reader.UnreadByte:"},
+			{Name: "silent-read-direct-helper", File: "bfe_bufio/bufio.go", Old: "func (b *Reader) Read(p []byte) (n int, err error) {\n	n = len(p)\n	if n == 0 {\n		return 0, b.readErr()\n	}\n	if b.w == b.r {\n		if b.err != nil {\n			return 0, b.readErr()\n		}\n		if len(p) >= len(b.buf) {\n			// Large read, empty buffer.\n			// Read directly into p to avoid copy.\n			n, b.err = b.rd.Read(p)\n			if n > 0 {\n				b.lastByte = int(p[n-1])\n				b.lastRuneSize = -1\n\n				b.TotalRead += n\n			}\n\n			return n, b.readErr()\n		}\n", New: "func (b *Reader) passThrough(dst []byte) (int, error) {\n	var got int\n	got, b.err = b.rd.Read(dst)\n	if got > 0 {\n		b.lastByte = int(dst[got-1])\n		b.lastRuneSize = -1\n\n		b.TotalRead += got\n	}\n	return got, b.readErr()\n}\n\nfunc (b *Reader) Read(p []byte) (n int, err error) {\n	n = len(p)\n	if n == 0 {\n		return 0, b.readErr()\n	}\n	if b.w == b.r {\n		if b.err != nil {\n			return 0, b.readErr()\n		}\n		if len(p) >= len(b.buf) {\n			return b.passThrough(p)\n		}\n", Silent: true},
 			{Name: "silent-reorder-and-rename", File: "bfe_bufio/bufio.go", Old: "	c = b.buf[b.r]\n	b.r++\n	b.lastByte = int(c)\n\n	b.TotalRead += 1\n", New: "	b.TotalRead++\n	next := b.buf[b.r]\n	c = next\n	b.lastByte = int(c)\n	b.r = b.r + 1\n", Silent: true},
 		},
 	})
@@ -274,6 +277,11 @@ type c22summary struct {
 	retSeen   map[*ssa.Return]int
 	single    *core.Path // the only path, when there is exactly one (inlinable)
 	busy      bool
+	// a private helper that is not balanced on its own (a fragment of its
+	// callers, e.g. "take one byte back from the counter"): it carries no
+	// obligation of its own and is executed inline, path by path, in every caller
+	inlineMulti bool
+	allPaths    []*core.Path
 }
 
 type c22ctx struct {
@@ -337,6 +345,10 @@ type c22state struct {
 	fresh      int
 	lastDelta  c22aff // last negative contribution to bytes (for the saturation guard)
 	depth      int
+	// which path of the k-th multi-path helper call is taken (see c22summary.inlineMulti)
+	choices []int
+	arity   []int
+	cpos    int
 }
 
 func (e *c22exec) newSym(hint string) c22aff {
@@ -875,7 +887,7 @@ func (e *c22exec) call(v *ssa.Call) bool {
 		e.havocFields()
 		return true
 	}
-	if sum.single != nil && st.depth < 4 {
+	inline := func(path *core.Path) bool {
 		sub := &c22exec{x: e.x, kind: k, fn: sc, recv: sc.Params[0], st: st, env: map[ssa.Value]c22aff{}, lens: map[ssa.Value]c22aff{}, refs: map[ssa.Value]string{}, epoch: map[ssa.Value]int{}}
 		st.fresh++
 		sub.prefix = fmt.Sprintf("%s%s%d.", e.prefix, sc.Name(), st.fresh)
@@ -893,7 +905,7 @@ func (e *c22exec) call(v *ssa.Call) bool {
 			}
 		}
 		st.depth++
-		ok := sub.run(sum.single)
+		ok := sub.run(path)
 		st.depth--
 		if !ok {
 			if sub.failed != "" {
@@ -916,6 +928,29 @@ func (e *c22exec) call(v *ssa.Call) bool {
 			}
 		}
 		return true
+	}
+	if sum.single != nil && st.depth < 4 {
+		return inline(sum.single)
+	}
+	if sum.inlineMulti && st.depth < 4 && len(sum.allPaths) > 0 {
+		kpos := st.cpos
+		st.cpos++
+		pick := 0
+		if kpos < len(st.choices) {
+			pick = st.choices[kpos]
+		}
+		for len(st.arity) <= kpos {
+			st.arity = append(st.arity, 1)
+		}
+		st.arity[kpos] = len(sum.allPaths)
+		if pick >= len(sum.allPaths) {
+			return false
+		}
+		path := sum.allPaths[pick]
+		if _, isRet := path.Last().(*ssa.Return); !isRet {
+			return false // the helper panics on this path: no obligation
+		}
+		return inline(path)
 	}
 	// summary: fields havocked, provable final zeros kept
 	e.havocFields()
@@ -1033,38 +1068,60 @@ func (x *c22ctx) summary(fn *ssa.Function) *c22summary {
 		if !isRet {
 			continue // panic exits carry no obligation
 		}
-		st := &c22state{fields: map[*types.Var]c22aff{}, nilness: map[string]bool{}}
-		e := &c22exec{x: x, kind: k, fn: fn, recv: fn.Params[0], st: st, env: map[ssa.Value]c22aff{}, lens: map[ssa.Value]c22aff{}, refs: map[ssa.Value]string{}, epoch: map[ssa.Value]int{}}
-		for f := range k.fields {
-			st.fields[f] = c22sym(f.Name() + "₀")
-		}
-		e.invariants()
-		ok := e.run(p)
-		if !ok {
-			if e.failed != "" {
-				s.retBad[ret] = e.failed
+		// one run per combination of paths through the multi-path helpers called on p
+		vectors := [][]int{nil}
+		runs := 0
+		for len(vectors) > 0 {
+			vec := vectors[len(vectors)-1]
+			vectors = vectors[:len(vectors)-1]
+			runs++
+			if runs > 256 {
+				s.retBad[ret] = "too many combinations of paths through private helpers on the path [" + c22pathSig(p) + "]: undecided"
 				s.retSeen[ret]++
+				break
 			}
-			continue
-		}
-		if st.saturated {
-			continue
-		}
-		lin := st.closure()
-		if lin == nil {
-			continue // contradictory facts: infeasible
-		}
-		feasible++
-		s.retSeen[ret]++
-		d := st.bytes.sub(st.ctr)
-		if zero, _, _ := c22class(lin.reduce(lin.vec(d))); !zero {
-			if _, had := s.retBad[ret]; !had {
-				s.retBad[ret] = fmt.Sprintf("bytes = %s but Δ%s = %s (difference %s) on the path [%s]", st.bytes, k.counter.Name(), st.ctr, d, c22pathSig(p))
+			st := &c22state{fields: map[*types.Var]c22aff{}, nilness: map[string]bool{}, choices: vec}
+			e := &c22exec{x: x, kind: k, fn: fn, recv: fn.Params[0], st: st, env: map[ssa.Value]c22aff{}, lens: map[ssa.Value]c22aff{}, refs: map[ssa.Value]string{}, epoch: map[ssa.Value]int{}}
+			for f := range k.fields {
+				st.fields[f] = c22sym(f.Name() + "₀")
 			}
-		}
-		for f := range zeroCand {
-			if zero, _, _ := c22class(lin.reduce(lin.vec(st.fields[f]))); !zero {
-				delete(zeroCand, f)
+			e.invariants()
+			ok := e.run(p)
+			for kpos := len(vec); kpos < len(st.arity); kpos++ {
+				for j := 1; j < st.arity[kpos]; j++ {
+					nv := append([]int(nil), vec...)
+					for len(nv) < kpos {
+						nv = append(nv, 0)
+					}
+					vectors = append(vectors, append(nv, j))
+				}
+			}
+			if !ok {
+				if e.failed != "" {
+					s.retBad[ret] = e.failed
+					s.retSeen[ret]++
+				}
+				continue
+			}
+			if st.saturated {
+				continue
+			}
+			lin := st.closure()
+			if lin == nil {
+				continue // contradictory facts: infeasible
+			}
+			feasible++
+			s.retSeen[ret]++
+			d := st.bytes.sub(st.ctr)
+			if zero, _, _ := c22class(lin.reduce(lin.vec(d))); !zero {
+				if _, had := s.retBad[ret]; !had {
+					s.retBad[ret] = fmt.Sprintf("bytes = %s but Δ%s = %s (difference %s) on the path [%s]", st.bytes, k.counter.Name(), st.ctr, d, c22pathSig(p))
+				}
+			}
+			for f := range zeroCand {
+				if zero, _, _ := c22class(lin.reduce(lin.vec(st.fields[f]))); !zero {
+					delete(zeroCand, f)
+				}
 			}
 		}
 	}
@@ -1076,7 +1133,46 @@ func (x *c22ctx) summary(fn *ssa.Function) *c22summary {
 		}
 	}
 	s.busy = false
+	if len(s.retBad) > 0 && s.complete && len(paths) <= 8 && len(core.Loops(fn)) == 0 && x.privateHelper(fn, k) {
+		s.inlineMulti, s.allPaths = true, paths
+	}
 	return s
+}
+
+// privateHelper: fn is an unexported method that is only ever called, as a
+// plain call on the caller's own receiver, from methods of the same type, and
+// is never used as a value. Such a method is a fragment of its callers.
+func (x *c22ctx) privateHelper(fn *ssa.Function, k *c22kind) bool {
+	if fn.Object() == nil || fn.Object().Exported() || fn.Parent() != nil {
+		return false
+	}
+	sites := x.c.P.CallSites(fn)
+	if len(sites) == 0 {
+		return false
+	}
+	for _, site := range sites {
+		call, isCall := site.(*ssa.Call)
+		caller := site.Parent()
+		if !isCall || caller == fn || x.kindOf(caller) != k || len(call.Call.Args) == 0 || call.Call.Args[0] != ssa.Value(caller.Params[0]) {
+			return false
+		}
+	}
+	taken := false
+	for _, g := range x.c.P.SrcFuncs(c22pkg) {
+		core.Instrs(g, func(in ssa.Instruction) {
+			var ops []*ssa.Value
+			for _, op := range in.Operands(ops) {
+				if op == nil || *op == nil || *op != ssa.Value(fn) {
+					continue
+				}
+				if ci, isCall := in.(ssa.CallInstruction); isCall && ci.Common().Value == ssa.Value(fn) {
+					continue
+				}
+				taken = true
+			}
+		})
+	}
+	return !taken
 }
 
 func c22pathSig(p *core.Path) string {
@@ -1180,6 +1276,10 @@ func runC22(c *core.Ctx) {
 			continue
 		}
 		c.Check("paths", name, fn.Pos(), s.complete, fmt.Sprintf("path enumeration of %s stopped after %d paths: the lockstep obligation is undecided", name, s.paths))
+		if s.inlineMulti {
+			c.Note("lockstep: %s is a private helper that is not balanced on its own; it carries no obligation and is executed inline on every path of its callers", name)
+			continue
+		}
 		rets := core.Returns(fn)
 		sort.Slice(rets, func(i, j int) bool { return rets[i].Pos() < rets[j].Pos() })
 		for i, r := range rets {
